@@ -6,8 +6,28 @@ package scen
 // helpers' Parallel router). Two disjoint responder populations: WAN peers with
 // public addresses, LAN peers with private ones; the two message senders are
 // told apart by the protocol list they are built with (the LAN one carries the
-// "/lan" extension). Only validity, provenance, stream improvement and
-// not-found are judged here (see the comment in c04World.check).
+// "/lan" extension). Validity, provenance, stream improvement and not-found
+// are judged here, and - of best-known - only the half that is observable
+// without knowing what the two nested searches had "processed" when the merge
+// ended (see the comments in c04World.check):
+//
+//	best-known-dual-local  "the final value is ranked at least as good as every
+//	    valid value supplied by local storage", on an uncancelled
+//	    dual.SearchValue (mechanism "dual merges WAN and LAN under the same
+//	    validator"). "Local storage" of the dual client is whatever the node
+//	    stored through the dual client's own PutValue; the scenario gives each
+//	    side a datastore of its own (the constructor's default), so the record
+//	    lives in the datastore of the side dual.PutValue routed it to - here the
+//	    LAN side's, because the node publishes before it has met anybody - while
+//	    the drawn responder split leaves either side's routing table empty or
+//	    populated (wan-n = 0 ... N, no-starting-points). The rule reads none of
+//	    that: it compares the final value with the stored record under the
+//	    validator's Select. It exposes every regression in which a record held
+//	    by one half of the dual client does not reach the merged result: a side
+//	    skipped or short-cut for lack of peers, a merge that drops or mis-ranks
+//	    one side's stream, a side whose local read is lost behind the other
+//	    side's answers. Not demanded of dual.GetValue: property C15 fixes its
+//	    result to the WAN side's whenever that side succeeds.
 
 import (
 	"fmt"
@@ -35,7 +55,8 @@ func init() {
 		Faults: []string{"fault_rec_invalid", "fault_rec_miskeyed", "fault_rec_empty", "fault_rpc_error", "fault_dial_fail", "fault_cancel", "time_advance",
 			"probe_found", "probe_notfound", "probe_stream_multi", "probe_dual_both_sides_answered", "probe_local_valid", "probe_local_expired", "probe_local_expired_midsearch", "probe_peer_serves_local_bytes_valid", "probe_peer_serves_local_bytes_expired_at_start", "probe_peer_serves_local_bytes_expired_midsearch",
 			"probe_opt_offline", "probe_opt_expired", "probe_opt_offline_local_not_valid", "probe_local_never_valid", "probe_local_outlived_max_age", "probe_stamp_valid_value_held_past_requesters_max_age", "probe_stamp_valid_value_from_the_future", "probe_stamp_valid_value_unparsable",
-			"probe_key_outside_namespaces", "probe_key_outside_record_acceptable_to_unregistered_validator", "probe_key_outside_local_record", "probe_no_starting_points", "probe_no_starting_points_local_valid"},
+			"probe_key_outside_namespaces", "probe_key_outside_record_acceptable_to_unregistered_validator", "probe_key_outside_local_record", "probe_no_starting_points", "probe_no_starting_points_local_valid",
+			"probe_dual_local_bestknown_checked", "probe_dual_local_valid_lan_table_empty", "probe_dual_local_valid_lan_table_empty_wan_peers_present"},
 	})
 }
 
@@ -86,7 +107,8 @@ func c04BuildDual(w *c04World) error {
 			a, b := c04PlantIn(dsWan, key, old, m), c04PlantIn(dsLan, key, old, m)
 			return a || b
 		},
-		dss: c04DSS(dsWan, dsLan),
+		dss:     c04DSS(dsWan, dsLan),
+		lanSize: func() int { return d.LAN.RoutingTable().Size() },
 		close: func() {
 			_ = d.Close()
 			_ = w.host.Close()
